@@ -81,6 +81,22 @@ type Sim struct {
 	Contracts []rtypes.Address
 	Opt     Options
 	absentIdx, absentLeft int
+	Obs     Observer
+	GenesisEligible bool // genesis validators satisfy the governance limits (count, minimum stake)
+	Cur     *BeginArgs // header of the block in execution
+	Restarted bool // a restart happened since the last EndBlock
+	EverRestarted bool
+}
+
+// Observer receives the primary node's state around every call (monitors).
+type Observer interface {
+	OnInit(s *Sim, post string)
+	OnBegin(s *Sim, a *BeginArgs, pre, post string, out appdrv.BeginOut)
+	OnDeliver(s *Sim, bz []byte, pre, post string, o appdrv.TxOut, tr *appdrv.EvmTrace)
+	OnEnd(s *Sim, pre, post string, ups []appdrv.ValUp)
+	OnCommit(s *Sim, post string, hash []byte)
+	OnRestart(s *Sim, infoOK bool)
+	OnQuery(s *Sim, path string, data []byte, h int64, canon string)
 }
 
 type Options struct {
@@ -144,6 +160,23 @@ func NewSim(seed uint64, r *rng.R, work string, opt Options) (*Sim, error) {
 			g.Holders = append(g.Holders, appdrv.Holder{Addr: k.Addr, Bal: bal})
 		}
 	}
+	// the validator properties quantify over genesis sets that satisfy the limits: mostly generate those
+	minP := int64(1 << 62)
+	for _, v := range g.Vals {
+		if v.Power < minP {
+			minP = v.Power
+		}
+	}
+	if r.Chance(85) {
+		if g.Params.MaxValidatorCnt < int64(nvals) {
+			g.Params.MaxValidatorCnt = int64(nvals) + int64(r.Intn(3))
+		}
+		if g.Params.MinValidatorStake == "5000000000000000000" && minP < 5 {
+			g.Params.MinValidatorStake = "1000000000000000000"
+		}
+	}
+	minStake := uint256.MustFromDecimal(g.Params.MinValidatorStake)
+	s.GenesisEligible = g.Params.MaxValidatorCnt >= int64(nvals) && Rigo(uint64(minP)).Cmp(minStake) >= 0
 	s.Gen = g
 	n, err := appdrv.OpenNode(filepath.Join(work, s.nextDir()))
 	if err != nil {
@@ -188,6 +221,9 @@ func (s *Sim) Init() {
 	s.ValSets[1] = vs
 	s.ValSets[2] = vs
 	s.Dump()
+	if s.Obs != nil {
+		s.Obs.OnInit(s, s.N.Dump())
+	}
 }
 
 func (s *Sim) keyIdx(a rtypes.Address) int {
